@@ -82,6 +82,10 @@ func (p prog) emit(v int64) {
 
 type custom struct{ x int }
 
+type fieldErrors []string
+
+func (f fieldErrors) Error() string { return "invalid fields" }
+
 // exec runs an action list against a real T.
 func (p prog) exec(t *f1testing.T, as []act) {
 	for _, a := range as {
@@ -115,7 +119,9 @@ func (p prog) exec(t *f1testing.T, as []act) {
 				require.True(t, false)
 			}
 		case 3:
-			switch a.how % 4 {
+			switch a.how % 5 {
+			case 4:
+				panic(fieldErrors{"a"}) // an error of a non-comparable dynamic type
 			case 0:
 				panic(errors.New("an error value"))
 			case 1:
@@ -128,7 +134,11 @@ func (p prog) exec(t *f1testing.T, as []act) {
 				panic(fmt.Errorf("wrapped: %w", errors.New("inner")))
 			}
 		case 4:
-			switch a.how % 4 {
+			switch a.how % 6 {
+			case 4:
+				panic([]int{1, 2})
+			case 5:
+				panic(map[string]int{"x": 1})
 			case 0:
 				panic("a string")
 			case 1:
